@@ -104,7 +104,42 @@ def run_scenario(name, decls, tier, seed, cov):
                "project_diags": located(pr.get("diags", []), files, decls)}
         out.append((a, obs))
     cov["tlc_runs"].append({"cfg": "MC_Pipe_%s.cfg" % name, "states": r["states"], "arrangements": len(arrs)})
-    return {"expected": expected, "runs": out, "decls": decls}
+    rejected = validate_stage_traces(name, arrs, res, cov)
+    return {"expected": expected, "runs": out, "decls": decls, "trace_rejected": rejected}
+
+
+def validate_stage_traces(name, arrs, res, cov):
+    """implementation -> specification: the events recorded by the guarded hook in analyzer/src/stages.rs for every
+    analysed arrangement are validated by TLC as behaviours of Pipeline.tla (PipelineTrace.tla, module PT_<scenario>).
+    Returns [(arrangement, index of the first unmatched record, that record)]"""
+    import json
+    import os
+    lines = []
+    index = []
+    for k, (a, rr) in enumerate(zip(arrs, res)):
+        if "stage_events" not in rr or "panic" in rr or "abort" in rr or "timeout" in rr:
+            continue
+        lines.append({"ev": "reset", "tid": k, "files": a})
+        lines.append({"ev": "parsed", "ok": [bool(p["ok"]) for p in rr.get("parse", [])]})
+        lines += rr["stage_events"]
+        lines.append({"ev": "end", "ok": bool(rr.get("analyze_ok")) and all(p["ok"] for p in rr.get("parse", []))})
+        index.append(k)
+    if not lines:
+        return []
+    wd = vlib.workdir("ptrace_" + name)
+    path = os.path.join(wd, "trace.ndjson")
+    with open(path, "w") as fh:
+        for e in lines:
+            fh.write(json.dumps(e) + "\n")
+    v = vlib.tlc_trace("PT_%s.tla" % name, "PT_%s.cfg" % name, path, name="ptrace_" + name)
+    cov["states"] += v["states"]
+    cov["transitions"] += v["transitions"]
+    cov["stage_trace_events"] = cov.get("stage_trace_events", 0) + len(lines)
+    cov["stage_traces_validated"] = cov.get("stage_traces_validated", 0) + len(index)
+    out = []
+    for tid, recno in v["bad"]:
+        out.append((arrs[tid], recno, lines[recno - 1] if 0 < recno <= len(lines) else None))
+    return out
 
 
 def cli_runs(name, decls, arrangements, repeats, workdir):
